@@ -32,6 +32,15 @@ def problem(space, metrics=1):
     root.add_float_param('a', 0.0, 1.0)
     root.add_float_param('b', 1e-3, 10.0, scale_type=vz.ScaleType.LOG)
     root.add_float_param('c', -5.0, 5.0)
+  elif space == 'cat2':
+    # several categorical / discrete parameters: per-parameter work done in an
+    # order that is not the declared one shows up here
+    root.add_float_param('a', 0.0, 1.0)
+    root.add_int_param('i', -2, 3)
+    root.add_categorical_param('c', ['x', 'y', 'z'])
+    root.add_categorical_param('k', ['p', 'q', 'r', 's'])
+    root.add_categorical_param('zz', ['u', 'v'])
+    root.add_discrete_param('d', [0.1, 0.5, 2.0])
   elif space == 'small':
     root.add_int_param('i', 0, 2)
     root.add_categorical_param('c', ['x', 'y'])
@@ -85,9 +94,9 @@ SPACES = {
     'grid': ['int10', 'mixed', 'small'],
     'sgrid': ['int10', 'mixed', 'small'],
     'quasi': ['mixed', 'f2', 'f3log', 'int10'],
-    'random': ['mixed', 'f2', 'int10'],
-    'eagle': ['mixed', 'f2', 'f3log'],
-    'nsga2': ['mixed', 'f2', 'f3log'],
+    'random': ['mixed', 'f2', 'int10', 'cat2'],
+    'eagle': ['mixed', 'f2', 'f3log', 'cat2', 'cat2'],
+    'nsga2': ['mixed', 'f2', 'f3log', 'cat2'],
     'cmaes': ['f2', 'f3log'],
 }
 DETERMINISTIC_DUMP = ('grid', 'sgrid', 'quasi', 'eagle')
